@@ -48,6 +48,13 @@ def gen_case(rng):
       body.append({'op': 'getb', 'sel': reg['_selector'], 'scope': tgt, 'inherit': rng.random() < 0.7})
   ops += body
   ops.append({'op': 'config'})
+  if rng.random() < 0.25:
+    # the configuration locked: further calls (overriding and not overriding bound parameters) see the same bindings
+    ops.append({'op': 'finalize'})
+    for _ in range(rng.randint(2, 4)):
+      reg = rng.choice(regs)
+      ops.append(G.gen_call(rng, reg, G.gen_enter(rng, rng.choice(scopes), 0.0)))
+    ops.append({'op': 'config'})
   return {'dom': 'gin', 'ops': ops}
 
 
